@@ -197,10 +197,14 @@ def core(ctx, nmsgs: int, faults: int, early: int, max_depth: int, budget_s: flo
     def expand(hist):
         p = build(cfg, hist)
         out = []
-        cl = build(cfg, hist).closure() + blackhole_closure(build(cfg, hist))
+        en = p.enabled()
+        cl = blackhole_closure(build(cfg, hist))
+        # the fair closure is one of the fault-free continuations the BFS explores anyway: only needed where it stops
+        if not en or len(hist) >= max_depth - 1:
+            cl = cl + build(cfg, hist).closure()
         if cl:
             out.append((None, None, cl))
-        for ev in p.enabled():
+        for ev in en:
             q = build(cfg, hist + [ev])
             out.append((ev, None if q.viol else q.canon(), list(q.viol)))
         return out
